@@ -67,6 +67,12 @@ class GotranCCodePrinter(C99CodePrinter):
             expr = sympy.Mul(*args, evaluate=False)
         return super()._print_Mul(expr)
 
+    def _print_Mod(self, expr):
+        # fmod has the sign of the dividend, while Mod (like % in Python)
+        # has the sign of the divisor
+        num, den = (self._print(arg) for arg in expr.args)
+        return f"(({num}) - ({den})*floor(({num})/({den})))"
+
     def _print_Abs(self, expr):
         # All variables are doubles, so never use the integer version 'abs'
         return f"fabs({self._print(expr.args[0])})"
